@@ -777,9 +777,19 @@ impl World {
                     None => "inactive".to_string(),
                     Some(t) => t.to_string(),
                 };
-                for (_, d) in &obs.sent {
-                    let _ = d;
-                    o.count("datagrams_sent");
+                o.add("datagrams_sent", obs.sent.len() as u64);
+                for e in &obs.events {
+                    o.count(&format!("event_{}", e.split('.').next().unwrap_or("?")));
+                }
+                for w in &obs.warns {
+                    o.count(&format!("warn_{}", w.rsplit('.').next().unwrap_or("?")));
+                }
+                let online = self.refs.values().filter(|r| r.kind() == "Online").count();
+                if online >= 2 {
+                    o.count("ops_with_2plus_online_peers");
+                }
+                if self.refs.values().any(|r| r.pending) && online >= 1 {
+                    o.count("ops_with_pending_and_online_peers");
                 }
                 format!(
                     "{} s={} e={} w={} nt={}",
@@ -880,7 +890,7 @@ impl<'a> Gen<'a> {
 
     fn reason(&mut self) -> Vec<u8> {
         let n = self.rng.below(8) as usize;
-        (0..n).map(|_| if self.rng.chance(1, 60) { 0 } else { 1 + self.rng.below(255) as u8 }).collect()
+        (0..n).map(|_| if self.rng.chance(1, 400) { 0 } else { 1 + self.rng.below(255) as u8 }).collect()
     }
 
     fn addr(&mut self) -> u32 {
@@ -1099,7 +1109,7 @@ impl<'a> Gen<'a> {
                 if !self.w.refs.contains_key(&a) {
                     self.remotes.insert(a, Remote::new());
                     self.line(&format!("connect {}", a));
-                } else if self.rng.chance(1, 12) {
+                } else if self.rng.chance(1, 60) {
                     self.line("dup");
                     self.line(&format!("connect {}", a));
                 }
@@ -1180,6 +1190,9 @@ impl<'a> Gen<'a> {
             }
             // ---- misuse of the API (outside the property's claims; model and code must still agree)
             _ => {
+                if !self.rng.chance(1, 5) {
+                    return;
+                }
                 let pid = match self.rng.below(3) {
                     0 => self.pick_pid(|_| true).unwrap_or(7),
                     1 => self.rng.below(6) as u32,
@@ -1213,9 +1226,9 @@ impl<'a> Gen<'a> {
 
 fn gen_all(tier: &str, seed: u64, out: &mut dyn std::io::Write) {
     let (sessions, steps) = match tier {
-        "thorough" => (6000, 160),
-        "search" => (600, 80),
-        _ => (450, 80),
+        "thorough" => (6000, 300),
+        "search" => (500, 200),
+        _ => (350, 200),
     };
     let mut g = Gen { w: World::new(), out, rng: Rng::new(seed ^ 0x6e65_7420), o: Oracle::new(), remotes: BTreeMap::new(), addrs: vec![1, 2], seen: vec![], lines: 0 };
     for i in 0..sessions {
